@@ -14,6 +14,7 @@ import Mqtt5V.Model.Replies
 import Mqtt5V.Model.Verdict
 import Mqtt5V.Model.Session
 import Driver.Trace
+import Driver.TraceIn
 /-! `mdrv`: the model behind a one-line-in / one-line-out protocol (DESIGN.md Appendix B).
 Imports Model/Spec/Gen only (no Mathlib, so it links as a native executable). -/
 open Mqtt5V
@@ -82,6 +83,7 @@ def pureStep (ws : List String) : String :=
       | none => "malformed"
     | _, _, _ => "bad-op"
   | "trace" :: toks => Driver.Trace.step toks
+  | "tracein" :: toks => Driver.TraceIn.step toks
   | "enc" :: _ => Driver.Codec.step ws
   | "dupenc" :: _ => Driver.Codec.step ws
   | "varlen" :: _ => Driver.Codec.step ws
